@@ -158,7 +158,9 @@ def main(ctx, args):
     keep = []
     for s in sess:
         longest = max([len(l) for r in s["recs"] if r["ev"] == "vi" for l in r["lines"]] + [0])
-        if longest > 1200:
+        # (TLC integers have 32 bits: a recorded column or row beyond them - a count of 10^9 - cannot be read back)
+        big = any(abs(r[k]) > 2000000000 for r in s["recs"] if r["ev"] == "vi" for k in ("top", "left", "row", "xcol", "rows", "cols"))
+        if longest > 1200 or big:
             st["skipped_long_lines"] = st.get("skipped_long_lines", 0) + 1
         else:
             keep.append(s)
